@@ -9,6 +9,7 @@ package ecmascript_test
 import (
 	"context"
 	"fmt"
+	"math"
 	"sort"
 	"strings"
 	"testing"
@@ -140,6 +141,16 @@ func runC06(c *sim.Ctx, t *testing.T) {
 			}
 			for k, v := range h.(map[string]interface{}) {
 				start.Bs[k] = v
+			}
+		}
+		if c.Chance(1, 8, "nanbinding") {
+			// a value an earlier action computed (hits/misses with misses == 0) that JSON cannot
+			// carry, beside structured bindings a script may write into
+			start.Bs["avg"] = math.NaN()
+			for _, k := range bsKeys {
+				if _, have := start.Bs[k]; !have {
+					start.Bs[k] = map[string]interface{}{"q": 1.0, "r": []interface{}{1.0}}
+				}
 			}
 		}
 		if typed {
